@@ -4,7 +4,7 @@ and runs the quick checks of the properties it is near; any VIOLATION is a false
 import json, os, subprocess, sys, time, queue
 from concurrent.futures import ThreadPoolExecutor
 ROOT = os.path.dirname(os.path.dirname(os.path.abspath(__file__)))
-NEAR = {"A": ["C01", "C02", "C03", "C04", "C05", "C17", "C18"], "B": ["C06", "C07", "C08", "C09"], "C": ["C11", "C12", "C06", "C07"],
+NEAR = {"A": ["C01", "C02", "C03", "C04", "C05", "C14", "C15", "C16", "C17", "C18"], "B": ["C06", "C07", "C08", "C09", "C10", "C05"], "C": ["C11", "C12", "C06", "C07", "C13"],
         "D": ["C14", "C15", "C16", "C01", "C03"], "E": ["C10", "C13", "C08", "C09"]}
 lanes = 4
 args = sys.argv[1:]
